@@ -1,6 +1,6 @@
 SPECIFICATION Spec
 CONSTANTS Kinds = {"lr", "glr", "slr", "lrrec", "glrrec", "lrld0", "glrld1"}
-  FailKinds = {"conflict", "initerror"}
+  FailKinds = {"conflict"}
   Inputs = {"ok", "bad", "act", "rec", "recerr", "kw", "empty"}
   MaxSteps = 7
 INVARIANT AugRestored
